@@ -62,16 +62,16 @@ type shadow struct {
 	ctx      *ctxNode
 	budgetMS int64 // effective budget (budget x weight); 0 = no limit
 
-	slept, excl, total int64            // since the last reset: counted in the budget / excluded / both
-	perKind            map[string]int64 // whole life of the lineage
-	sinceReset         map[string]int64
-	baseDiff           int64 // (model total - library total) when this back-offer was forked/cloned
-	resets, resetsAtFork int  // resets along the lineage (a reset restarts the comparison)
-	atForkModel        int64 // model total at that moment (ns)
-	atForkLib          int   // library total at that moment (ms)
-	calls              int
-	merged             bool // the lineage has absorbed a fork
-	cut                int  // sleeps of the lineage cut short by a cancellation (since the last reset)
+	slept, excl, total   int64            // since the last reset: counted in the budget / excluded / both
+	perKind              map[string]int64 // whole life of the lineage
+	sinceReset           map[string]int64
+	baseDiff             int64 // (model total - library total) when this back-offer was forked/cloned
+	resets, resetsAtFork int   // resets along the lineage (a reset restarts the comparison)
+	atForkModel          int64 // model total at that moment (ns)
+	atForkLib            int   // library total at that moment (ms)
+	calls                int
+	merged               bool // the lineage has absorbed a fork
+	cut                  int  // sleeps of the lineage cut short by a cancellation (since the last reset)
 }
 
 func copyMap(m map[string]int64) map[string]int64 {
@@ -149,7 +149,7 @@ func (c counters) String() string {
 
 type actor struct {
 	gid    int
-	depth  int // nesting level of the goroutine (log order at equal instants: deeper first)
+	depth  int           // nesting level of the goroutine (log order at equal instants: deeper first)
 	offset time.Duration // sub-millisecond phase owned by this goroutine
 	seq    int
 }
@@ -184,12 +184,13 @@ type run struct {
 	killAt  atomic.Int64 // 1 + instant of the kill, 0 = not killed
 	killVal uint32
 
-	mu      sync.Mutex
-	events  []event
-	viols   []violRec
-	stats   map[string]int
-	handles map[string]*handle
-	once    map[string]bool
+	mu           sync.Mutex
+	extraCancels []context.CancelFunc
+	events       []event
+	viols        []violRec
+	stats        map[string]int
+	handles      map[string]*handle
+	once         map[string]bool
 }
 
 type violRec struct {
@@ -369,6 +370,9 @@ func (r *run) execute() {
 	close(done)
 	aux.Wait()
 	cancel()
+	for _, c := range r.extraCancels {
+		c()
+	}
 }
 
 func (r *run) runSteps(a *actor, s *shadow, steps []Step) {
@@ -377,6 +381,19 @@ func (r *run) runSteps(a *actor, s *shadow, steps []Step) {
 		switch st.Op {
 		case "gap":
 			time.Sleep(time.Duration(st.Ms) * time.Millisecond)
+		case "setctx":
+			// a context of its own: cancelling the old one no longer concerns this back-offer, cancelling the new one does
+			nctx, ncancel := context.WithCancel(context.Background())
+			node := &ctxNode{}
+			label := fmt.Sprintf("%s/%dx", s.label, i)
+			s.bo.SetCtx(nctx)
+			s.ctx = node
+			r.register(label, ncancel, node)
+			r.mu.Lock()
+			r.extraCancels = append(r.extraCancels, ncancel)
+			r.mu.Unlock()
+			r.stat("op.setctx", 1)
+			r.ev(a, "%s.SetCtx(new context %s)", s.label, label)
 		case "reset":
 			s.bo.Reset()
 			s.reset()
